@@ -294,13 +294,20 @@ DirBase2 ==
      [MkRule(25, 2, <<M("ARGS_GET", s_a)>>) EXCEPT !.tags = <<"t2">>, !.msg = "m3"],
      MkRule(99, 2, <<M("ARGS_GET", s_a)>>),
      [MkRule(30, 2, <<M("ARGS_GET", s_a)>>) EXCEPT !.tags = <<"t2">>],
-     MkRule(40, 2, <<M("ARGS_GET", s_a)>>) >>
+     MkRule(40, 2, <<RuleLink(<<T("ARGS_GET")>>, << >>, OpLit("streq", s_x), FALSE, << >>)>>),      \* the whole collection
+     MkRule(50, 2, <<M("ARGS_GET", s_A)>>) >>                                                          \* a key written with an upper-case letter
 Directives2 == {WithIds(Dir("SecRuleRemoveById"), z) : z \in {[ids |-> <<25>>, lo |-> 0, hi |-> 0], [ids |-> << >>, lo |-> 25, hi |-> 30], [ids |-> <<30>>, lo |-> 20, hi |-> 25]}}
                \cup {[Dir("SecRuleRemoveByTag") EXCEPT !.s = "t2"], [Dir("SecRuleRemoveByMsg") EXCEPT !.s = "m3"]}
 \* run-time counterparts: one ctl rule carrying one or two removals (overlapping ranges are stored one after the other)
 CtlActs2 == { <<ACtlRmId(25)>>, <<ACtlRmRange(25, 30)>>, <<ACtlRmRange(22, 27), ACtlRmRange(26, 32)>>, <<ACtlRmRange(26, 32), ACtlRmRange(22, 27)>>,
-              <<ACtlRmRange(20, 30), ACtlRmRange(25, 45)>>, <<ACtlRmTag("t2")>>, <<ACtlRmMsg("m3")>>, <<ACtlRmId(25), ACtlRmId(99)>> }
-DirReqs2 == {ReqOfEntries(S) : S \in SUBSET {E("ARGS_GET", s_a, s_x), E("ARGS_GET", s_b, s_x), E("ARGS_GET", s_cc, s_1)}}
+              <<ACtlRmRange(20, 30), ACtlRmRange(25, 45)>>, <<ACtlRmTag("t2")>>, <<ACtlRmMsg("m3")>>, <<ACtlRmId(25), ACtlRmId(99)>>,
+              \* target exclusions: the key as the rule writes it / in the other case; several exclusions on one rule and collection
+              <<ACtlRmTgt(50, "ARGS_GET", SelKey(s_A))>>, <<ACtlRmTgt(50, "ARGS_GET", SelKey(s_a))>>,
+              <<ACtlRmTgt(40, "ARGS_GET", SelRx([m |-> "prefix", lit |-> s_a])), ACtlRmTgt(40, "ARGS_GET", SelRx([m |-> "prefix", lit |-> s_b]))>>,
+              <<ACtlRmTgt(40, "ARGS_GET", SelRx([m |-> "prefix", lit |-> s_b])), ACtlRmTgt(40, "ARGS_GET", SelKey(s_a))>>,
+              <<ACtlRmTgt(40, "ARGS_GET", SelKey(s_a)), ACtlRmTgt(40, "ARGS_GET", SelKey(s_b))>>,
+              <<ACtlRmTgtTag("t2", "ARGS_GET", SelRx([m |-> "prefix", lit |-> s_a])), ACtlRmTgt(30, "ARGS_GET", SelAll)>> }
+DirReqs2 == {ReqOfEntries(S) : S \in SUBSET {E("ARGS_GET", s_a, s_x), E("ARGS_GET", s_b, s_x), E("ARGS_GET", s_A, s_x), E("ARGS_GET", s_cc, s_1)}}
 Pass1 == <<A("pass")>>
 DirPicks(two, slice, slices) ==
   [kind : {"dir"}, d1 : SliceOf(Directives, slice, slices), d2 : IF two THEN Directives \cup {Dir("")} ELSE {Dir("")}, ctl : {A("pass")}, ctls : {Pass1}, pos : {0}, rq : DirReqs]
